@@ -253,6 +253,26 @@ func TestGrid(t *testing.T) {
 			}
 		}
 	}
+	// very long bitmaps (size thresholds): sparse ones with long zero runs, ranges keyed
+	for _, n := range []int{1025, 4097, 70001} {
+		for _, every := range []int{1, 9, 500, n - 1} {
+			w := make(vk.Words, n)
+			for i := 0; i < n; i += every {
+				w[i] = 1 << (vk.Mix(uint64(i+n)) & 63)
+			}
+			var rs [][2]int32
+			nb := uint64(64 * n)
+			for k := 0; k < 400; k++ {
+				a, b := int32(vk.Mix(uint64(k)*2+uint64(n))%nb), int32(vk.Mix(uint64(k)*2+1+uint64(every))%(nb+1))
+				if a > b {
+					a, b = b, a
+				}
+				rs = append(rs, [2]int32{a, b})
+			}
+			rs = append(rs, [2]int32{0, int32(nb)}, [2]int32{int32(nb) - 1, int32(nb)}, [2]int32{1, int32(nb) - 1})
+			checker.Run(t, Case{Words: w, Style: "grid-very-long", Ranges: rs})
+		}
+	}
 	vk.CountConstructed(evals, nontriv, "grid-range")
 	vk.AddSample(map[string]any{"grid": "216 three-word bitmaps x all (i,end)", "example": map[string]any{"words": []string{"8000000000000000", "0", "1"}, "i": 64, "end": 130, "NextOne": bitmap.NextOne([]uint64{1 << 63, 0, 1}, 64, 130), "PrevOne": bitmap.PrevOne([]uint64{1 << 63, 0, 1}, 64, 130)}})
 	vk.MarkExhaustive("all 216 three-word bitmaps over a 6-word palette x all 0<=i<=end<=192")
